@@ -76,6 +76,7 @@ pub struct SymbolMap {
     name_to_class: HashMap<EcoString, RecordId>,
     name_to_def: HashMap<EcoString, RecordId>,
     name_to_multiclass: HashMap<EcoString, MulticlassId>,
+    name_to_defset: HashMap<EcoString, DefsetId>,
     file_to_symbol_list: HashMap<FileId, Vec<SymbolId>>,
     pos_to_symbol_map: HashMap<FileId, IntervalMap<TextSize, SymbolId>>,
 }
@@ -173,6 +174,10 @@ impl SymbolMap {
         self.multiclass_list
             .get_mut(multiclass_id)
             .expect("invalid multiclass id")
+    }
+
+    pub fn find_defset(&self, name: &EcoString) -> Option<DefsetId> {
+        self.name_to_defset.get(name).copied()
     }
 
     pub fn find_multiclass(&self, name: &EcoString) -> Option<MulticlassId> {
@@ -354,8 +359,10 @@ impl SymbolMap {
     }
 
     pub fn add_defset(&mut self, defset: Defset) -> DefsetId {
+        let name = defset.name.clone();
         let define_loc = defset.define_loc;
         let id = self.defset_list.alloc(defset);
+        self.name_to_defset.insert(name, id);
         self.file_to_symbol_list
             .entry(define_loc.file)
             .or_default()
